@@ -32,6 +32,11 @@ add("C04", "exploration",
     "trusted: simdisk.KV, the closed observation universe; AccountDB/journal/tries are the real code; base states start with the native-token contract binding every genesis creates",
     "deterministic simulation: seeded histories with nested reverts + reopen faults; observation and twin-run oracles")
 
+add("C05", "fault_enumeration",
+    "seeded block trees generated with the node's own cast/verify/assemble API are delivered to a fresh real node in seeded orders (duplicates, orphans first, re-deliveries, restarts); the invariant of the statement is checked on the live node after every delivery and - exhaustively per plan - on a new incarnation booted from the disk image after EVERY individual store write inside every delivery (crash + restart), followed by a progress check (a valid child of the restarted head is accepted). Reference fork-choice comparator for weight monotonicity.",
+    "trusted: simulated storage under real goleveldb (completed writes survive, nothing torn), stub ConsensusHelper (signatures/VRF accepted), in-process restart through in-package drivers; one real node, peers are the delivery script",
+    "deterministic simulation: block-tree delivery schedules + crash-after-every-store-write enumeration + restart")
+
 add("C19", "fault_enumeration",
     "seeded histories of AddGroup (valid and three kinds of invalid), remove-last-group, remove-then-different-group and restart on a booted real node; the invariant (linked list from genesis, count, height index below and above count, by-id retrieval, removed groups gone, sync successors) is checked against a slice model on the live node after every operation and - exhaustively per history - on a fresh incarnation booted from the disk image taken after every operation. Crash points inside an operation are booted too but only reported as probes (outside the property's quantifier).",
     "trusted: simulated storage under real goleveldb (completed writes survive), stub ConsensusHelper.CheckGroup, in-process restart (singletons reset through in-package drivers)",
